@@ -608,6 +608,225 @@ theorem smap_predict_spec [Inhabited Wt] (K : Kernel X Wt β β) (inf : β) (sel
   simp only [List.nil_append] at h3
   rw [h3]
 
+/-! #### `SimpleARTMAP.partial_fit` and `fit` -/
+
+/-- the model's supervised step neither reads nor changes the A-side labels / the class labels it has recorded -/
+theorem smapStep_with_labels [Inhabited Wt] (K : Kernel X Wt β β) (cfg : SearchCfg β β) (th0 : β)
+    (m : SMapState Wt) (l lb : List Nat) (xy : X × Nat) :
+    smapStep K cfg th0 { a := { m.a with labels := l }, map := m.map, labelsB := lb } xy =
+      { a := { (stepFit K cfg th0 (mapVeto m.map xy.2) m.a xy.1).1 with
+               labels := l ++ [(stepFit K cfg th0 (mapVeto m.map xy.2) m.a xy.1).2] }
+        map := mapSet m.map (stepFit K cfg th0 (mapVeto m.map xy.2) m.a xy.1).2 xy.2
+        labelsB := lb ++ [xy.2] } := by
+  simp only [smapStep, stepFit_with_labels]
+
+theorem smapStep_eq [Inhabited Wt] (K : Kernel X Wt β β) (cfg : SearchCfg β β) (th0 : β) (m : SMapState Wt) (xy : X × Nat) :
+    smapStep K cfg th0 m xy =
+      { a := { (stepFit K cfg th0 (mapVeto m.map xy.2) m.a xy.1).1 with
+               labels := m.a.labels ++ [(stepFit K cfg th0 (mapVeto m.map xy.2) m.a xy.1).2] }
+        map := mapSet m.map (stepFit K cfg th0 (mapVeto m.map xy.2) m.a xy.1).2 xy.2
+        labelsB := m.labelsB ++ [xy.2] } := by
+  have := smapStep_with_labels K cfg th0 m m.a.labels m.labelsB xy
+  simpa using this
+
+/-- one iteration of the `SimpleARTMAP.partial_fit` loop = one model `smapStep`, the A-label written at `i + j` -/
+theorem smap_partial_fit_body_eq [Inhabited Wt] (K : Kernel X Wt β β) (inf eps : β) (mt : MT) (p0 : β) (hw : Bool) (j : Nat)
+    (m : SMapState Wt) (lab LB : List Nat) (hl : Bool) (x : X) (y i : Nat) :
+    letI : Inhabited β := ⟨0⟩
+    Art.Gen.SimpleARTMAP.partial_fit_loop1_body (scalarExt K inf) mt eps j
+        (⟨m.a.W, m.a.cnt, m.a.n, p0, lab, hw⟩, m.map, LB, hl) ((x, y), i) =
+      (let r := stepFit K (scalarCfg mt false (· + eps) (· - eps) inf) p0 (mapVeto m.map y) m.a x
+       Flow.next (⟨r.1.W, r.1.cnt, r.1.n, p0, lab.set (i + j) r.2, hw⟩, mapSet m.map r.2 y, LB, hl)) := by
+  letI : Inhabited β := ⟨0⟩
+  unfold Art.Gen.SimpleARTMAP.partial_fit_loop1_body
+  have h := smap_generated_step_fit K inf eps mt
+    ({ a := ⟨m.a.W, m.a.cnt, m.a.n, p0, lab, hw⟩, map := m.map, labelsB := LB, hasLabels := hl } : SMapSelf Wt β) x y
+  simp only at h
+  simp only [h]
+  have hs := smapStep_with_labels K (scalarCfg mt false (· + eps) (· - eps) inf) p0 m lab [] (x, y)
+  simp only [hs, stepFit_with_labels]
+
+/-- the loop of `SimpleARTMAP.partial_fit` is the model's fold of `smapStep` (A-labels written into the padded vector) -/
+theorem smap_partial_fit_loop [Inhabited Wt] (K : Kernel X Wt β β) (inf eps : β) (mt : MT) (p0 : β) (hw : Bool) (j : Nat)
+    (LB : List Nat) (hl : Bool) :
+    letI : Inhabited β := ⟨0⟩
+    ∀ (l : List (X × Nat)) (k : Nat) (m : SMapState Wt) (tail : List Nat), tail.length = l.length →
+      m.a.labels.length = j + k →
+      forEach (Art.Gen.SimpleARTMAP.partial_fit_loop1_body (scalarExt K inf) mt eps j) (l.zipIdx k)
+          (⟨m.a.W, m.a.cnt, m.a.n, p0, m.a.labels ++ tail, hw⟩, m.map, LB, hl) =
+        (let m' := l.foldl (smapStep K (scalarCfg mt false (· + eps) (· - eps) inf) p0) m
+         Flow.next (⟨m'.a.W, m'.a.cnt, m'.a.n, p0, m'.a.labels, hw⟩, m'.map, LB, hl)) := by
+  letI : Inhabited β := ⟨0⟩
+  intro l
+  induction l with
+  | nil =>
+    intro k m tail ht _
+    cases tail with
+    | nil => simp [forEach]
+    | cons _ _ => simp at ht
+  | cons xy l ih =>
+    intro k m tail ht hlen
+    obtain ⟨x, y⟩ := xy
+    cases tail with
+    | nil => simp at ht
+    | cons t tail =>
+      simp only [List.zipIdx_cons, forEach, List.foldl_cons]
+      rw [smap_partial_fit_body_eq K inf eps mt p0 hw j m]
+      simp only
+      have hset : (m.a.labels ++ t :: tail).set (k + j)
+            (stepFit K (scalarCfg mt false (· + eps) (· - eps) inf) p0 (mapVeto m.map y) m.a x).2 =
+          (m.a.labels ++ [(stepFit K (scalarCfg mt false (· + eps) (· - eps) inf) p0 (mapVeto m.map y) m.a x).2]) ++ tail := by
+        have : k + j = m.a.labels.length := by omega
+        rw [this]; simp
+      rw [hset]
+      have hstep := smapStep_eq K (scalarCfg mt false (· + eps) (· - eps) inf) p0 m (x, y)
+      have hlen' : (smapStep K (scalarCfg mt false (· + eps) (· - eps) inf) p0 m (x, y)).a.labels.length = j + (k + 1) := by
+        rw [hstep]; simp; omega
+      have := ih (k + 1) (smapStep K (scalarCfg mt false (· + eps) (· - eps) inf) p0 m (x, y)) tail (by simpa using ht) hlen'
+      rw [hstep] at this ⊢
+      simpa using this
+
+theorem smap_fold_labelsB [Inhabited Wt] (K : Kernel X Wt β β) (cfg : SearchCfg β β) (th0 : β) :
+    ∀ (l : List (X × Nat)) (m : SMapState Wt),
+      (l.foldl (smapStep K cfg th0) m).labelsB = m.labelsB ++ l.map Prod.snd := by
+  intro l
+  induction l with
+  | nil => intro m; simp
+  | cons xy l ih =>
+    intro m
+    simp only [List.foldl_cons, List.map_cons]
+    rw [ih, smapStep_eq]
+    simp
+
+/-- **`SimpleARTMAP.partial_fit` is the model's `smapPartialFit`** on the batch `zip X y` (same length): A-side weights,
+counters, sample counter, A-labels, the class map and the recorded class labels; on an estimator without `labels_` it
+starts from an empty A-side.  Batching is then irrelevant for the supervised model too (`smapPartialFit` is a fold). -/
+theorem smap_partial_fit_spec [Inhabited Wt] (K : Kernel X Wt β β) (inf eps : β) (mt : MT)
+    (self : SMapSelf Wt β) (Xs : List X) (ys : List Nat) (hxy : Xs.length = ys.length)
+    (hinv : self.hasLabels = true → self.a.labels.length = self.labelsB.length) :
+    letI : Inhabited β := ⟨0⟩
+    Art.Gen.SimpleARTMAP.partial_fit (scalarExt K inf) self Xs ys mt eps =
+      (let s0 : SMapState Wt :=
+         if self.hasLabels then { a := ⟨self.a.W, self.a.cnt, self.a.n, self.a.labels⟩, map := self.map, labelsB := self.labelsB }
+         else { a := ⟨[], [], 0, []⟩, map := self.map, labelsB := [] }
+       let r := smapPartialFit K (scalarCfg mt false (· + eps) (· - eps) inf) self.a.params s0 (Xs.zip ys)
+       (⟨⟨r.a.W, r.a.cnt, r.a.n, self.a.params, r.a.labels, if self.hasLabels then self.a.hasW else true⟩, r.map, r.labelsB, true⟩, ())) := by
+  letI : Inhabited β := ⟨0⟩
+  unfold Art.Gen.SimpleARTMAP.partial_fit smapPartialFit
+  have hzl : (Xs.zip ys).length = Xs.length := by simp [hxy]
+  have hsnd : (Xs.zip ys).map Prod.snd = ys := by
+    rw [List.map_snd_zip]; omega
+  cases hh : self.hasLabels with
+  | false =>
+    simp only [Bool.not_false, if_true, Bool.false_eq_true, if_false]
+    have := smap_partial_fit_loop K inf eps mt self.a.params true 0 ys true (Xs.zip ys) 0
+      { a := ⟨[], [], 0, []⟩, map := self.map, labelsB := [] } (List.replicate Xs.length 0) (by simp [hzl]) (by simp)
+    simp only [List.nil_append] at this
+    simp only [this]
+    have hLB := smap_fold_labelsB K (scalarCfg mt false (· + eps) (· - eps) inf) self.a.params (Xs.zip ys)
+      { a := ⟨[], [], 0, []⟩, map := self.map, labelsB := [] }
+    simp only [List.nil_append, hsnd] at hLB
+    rw [hLB]
+  | true =>
+    simp only [Bool.not_true, Bool.false_eq_true, if_false, if_true]
+    have htake : (self.labelsB ++ List.replicate Xs.length 0).take self.labelsB.length ++ ys = self.labelsB ++ ys := by
+      simp
+    have := smap_partial_fit_loop K inf eps mt self.a.params self.a.hasW self.labelsB.length (self.labelsB ++ ys) true (Xs.zip ys) 0
+      { a := ⟨self.a.W, self.a.cnt, self.a.n, self.a.labels⟩, map := self.map, labelsB := self.labelsB }
+      (List.replicate Xs.length 0) (by simp [hzl]) (by simpa using hinv hh)
+    simp only [htake, this]
+    have hLB := smap_fold_labelsB K (scalarCfg mt false (· + eps) (· - eps) inf) self.a.params (Xs.zip ys)
+      { a := ⟨self.a.W, self.a.cnt, self.a.n, self.a.labels⟩, map := self.map, labelsB := self.labelsB }
+    simp only [hsnd] at hLB
+    rw [hLB]
+
+theorem smap_fold_labels_length [Inhabited Wt] (K : Kernel X Wt β β) (cfg : SearchCfg β β) (th0 : β) :
+    ∀ (l : List (X × Nat)) (m : SMapState Wt),
+      (l.foldl (smapStep K cfg th0) m).a.labels.length = m.a.labels.length + l.length := by
+  intro l
+  induction l with
+  | nil => intro m; simp
+  | cons xy l ih =>
+    intro m
+    simp only [List.foldl_cons, List.length_cons]
+    rw [ih, smapStep_eq]
+    simp; omega
+
+/-- one epoch of `SimpleARTMAP.fit`: the model's `smapPartialFit` from emptied label vectors; the A-labels of the
+previous epoch are overwritten position by position -/
+theorem smap_fit_epoch [Inhabited Wt] (K : Kernel X Wt β β) (inf eps : β) (mt : MT) (p0 : β) (hw : Bool)
+    (LB : List Nat) (hl : Bool) (l : List (X × Nat)) (m : SMapState Wt) (L : List Nat) (hL : L.length = l.length) :
+    letI : Inhabited β := ⟨0⟩
+    forEach (Art.Gen.SimpleARTMAP.fit_loop1_body (scalarExt K inf) mt eps) (l.zipIdx)
+        (⟨m.a.W, m.a.cnt, m.a.n, p0, L, hw⟩, m.map, LB, hl) =
+      (let m' := smapPartialFit K (scalarCfg mt false (· + eps) (· - eps) inf) p0
+                   { m with a := { m.a with labels := [] }, labelsB := [] } l
+       Flow.next (⟨m'.a.W, m'.a.cnt, m'.a.n, p0, m'.a.labels, hw⟩, m'.map, LB, hl)) := by
+  letI : Inhabited β := ⟨0⟩
+  have hbody : Art.Gen.SimpleARTMAP.fit_loop1_body (scalarExt K inf) mt eps =
+      Art.Gen.SimpleARTMAP.partial_fit_loop1_body (scalarExt K inf) mt eps 0 := by
+    funext s p
+    obtain ⟨⟨x, y⟩, i⟩ := p
+    simp [Art.Gen.SimpleARTMAP.fit_loop1_body, Art.Gen.SimpleARTMAP.partial_fit_loop1_body]
+  rw [hbody]
+  have := smap_partial_fit_loop K inf eps mt p0 hw 0 LB hl l 0
+    { m with a := { m.a with labels := [] }, labelsB := [] } L hL (by simp)
+  simpa [smapPartialFit] using this
+
+/-- **`SimpleARTMAP.fit(X, y, max_iter = k)` is the model's `smapFitEpochs`** for every `k >= 1`: A-side weights,
+counters, sample counter and labels, the class map; `labels_` is `y`. -/
+theorem smap_fit_spec [Inhabited Wt] (K : Kernel X Wt β β) (inf eps : β) (mt : MT)
+    (self : SMapSelf Wt β) (Xs : List X) (ys : List Nat) (hxy : Xs.length = ys.length) (epochs : Nat) (v : Bool) :
+    letI : Inhabited β := ⟨0⟩
+    Art.Gen.SimpleARTMAP.fit (scalarExt K inf) self Xs ys (epochs + 1) mt eps v =
+      (let r := smapFitEpochs K (scalarCfg mt false (· + eps) (· - eps) inf) self.a.params (epochs + 1) (Xs.zip ys)
+       (⟨⟨r.a.W, r.a.cnt, r.a.n, self.a.params, r.a.labels, true⟩, r.map, ys, true⟩, ())) := by
+  letI : Inhabited β := ⟨0⟩
+  unfold Art.Gen.SimpleARTMAP.fit smapFitEpochs
+  simp only
+  have hzl : (Xs.zip ys).length = Xs.length := by simp [hxy]
+  let cfg := scalarCfg mt false (· + eps) (· - eps) inf
+  let ep : SMapState Wt → SMapState Wt := fun s =>
+    smapPartialFit K cfg self.a.params { s with a := { s.a with labels := [] }, labelsB := [] } (Xs.zip ys)
+  have hep_len : ∀ s, (ep s).a.labels.length = Xs.length := by
+    intro s
+    simp only [ep, smapPartialFit]
+    rw [smap_fold_labels_length]; simp [hzl]
+  have houter : ∀ (es : List Nat) (m : SMapState Wt) (L : List Nat), L.length = Xs.length →
+      forEach (Art.Gen.SimpleARTMAP.fit_loop2_body (scalarExt K inf) Xs ys mt eps v) es
+          (⟨m.a.W, m.a.cnt, m.a.n, self.a.params, L, true⟩, m.map, ys, true) =
+        (let m' := es.foldl (fun s _ => ep s) m
+         Flow.next (⟨m'.a.W, m'.a.cnt, m'.a.n, self.a.params, if es = [] then L else m'.a.labels, true⟩, m'.map, ys, true)) := by
+    intro es
+    induction es with
+    | nil => intro m L _; rfl
+    | cons e es ih =>
+      intro m L hL
+      simp only [forEach, List.foldl_cons]
+      have hin := smap_fit_epoch K inf eps mt self.a.params true ys true (Xs.zip ys) m L (by simp [hzl, hL])
+      have hb : Art.Gen.SimpleARTMAP.fit_loop2_body (scalarExt K inf) Xs ys mt eps v
+          (⟨m.a.W, m.a.cnt, m.a.n, self.a.params, L, true⟩, m.map, ys, true) e =
+          Flow.next (⟨(ep m).a.W, (ep m).a.cnt, (ep m).a.n, self.a.params, (ep m).a.labels, true⟩, (ep m).map, ys, true) := by
+        unfold Art.Gen.SimpleARTMAP.fit_loop2_body
+        cases v <;> simp [hin, ep, cfg]
+      rw [hb]
+      have := ih (ep m) (ep m).a.labels (hep_len m)
+      simp only at this ⊢
+      rw [this]
+      by_cases hes : es = []
+      · subst hes; simp
+      · simp [hes]
+  have h0 := houter (List.range (epochs + 1)) ({} : SMapState Wt) (List.replicate Xs.length 0) (by simp)
+  have hne : List.range (epochs + 1) ≠ [] := by simp
+  simp only [hne, if_false] at h0
+  have hinit : (({} : SMapState Wt).a.W, ({} : SMapState Wt).a.cnt, ({} : SMapState Wt).a.n, ({} : SMapState Wt).map) = ([], [], 0, []) := rfl
+  simp only [ep, cfg] at h0
+  have hstart : (({ W := [], cnt := [], n := 0, params := self.a.params, labels := List.replicate Xs.length 0 } : Self Wt β),
+      ([] : List (Option Nat)), ys, true) =
+      ((⟨({} : SMapState Wt).a.W, ({} : SMapState Wt).a.cnt, ({} : SMapState Wt).a.n, self.a.params,
+          List.replicate Xs.length 0, true⟩ : Self Wt β), ({} : SMapState Wt).map, ys, true) := rfl
+  rw [hstart, h0]
+
 end SMap
 
 end Art.GenSpec.Control
